@@ -30,6 +30,10 @@ class Boom(Exception):
   pass
 
 
+class Interrupt(BaseException):
+  """Leaves blocks like KeyboardInterrupt does: not an Exception subclass."""
+
+
 # ------------------------------------------------------------------ generator
 def gen_arg(rng, w_invalid=0.08):
   r = rng.random()
@@ -54,10 +58,20 @@ def gen_items(rng, depth, budget):
       break
     budget[0] -= 1
     r = rng.random()
+    if depth >= 1 and rng.random() < 0.12:
+      # a rejected / failing entry that is caught inside an active scope, then an observation
+      inner = ({'k': 'block', 'arg': gen_arg(rng, w_invalid=1.0), 'body': [{'k': 'obs'}]}
+               if rng.random() < 0.6 else
+               {'k': 'block', 'arg': gen_arg(rng, 0.0), 'body': [{'k': 'raise', 'base': rng.random() < 0.5}]})
+      items.append({'k': 'catch', 'body': [inner]})
+      items.append({'k': 'obs'})
+      continue
     if r < 0.4:
       items.append({'k': 'obs'})
     elif r < 0.47 and depth > 0:
-      items.append({'k': 'raise'})
+      items.append({'k': 'raise', 'base': rng.random() < 0.35})
+    elif r < 0.56 and depth < 4:
+      items.append({'k': 'catch', 'body': gen_items(rng, depth, budget)})
     elif depth < 4:
       items.append({'k': 'block', 'arg': gen_arg(rng), 'body': gen_items(rng, depth + 1, budget)})
     else:
@@ -81,6 +95,9 @@ def gen_case(rng, nthreads=None):
 def count_groups(items):
   n = 0
   for it in items:
+    if it['k'] == 'catch':
+      n += count_groups(it['body'])
+      continue
     n += 1
     if it['k'] == 'block':
       n += count_groups(it['body']) + 1
@@ -179,12 +196,18 @@ def run_impl(case):
 
     def run(items):
       for it in items:
+        if it['k'] == 'catch':
+          try:
+            run(it['body'])
+          except (Boom, Interrupt, ValueError, RuntimeError):
+            pass
+          continue
         st.checkpoint(tid)
         if it['k'] == 'obs':
           x = f()
           obs.append([list(gin.current_scope()), None if x == -1 else encode(x, gin)])
         elif it['k'] == 'raise':
-          raise Boom()
+          raise (Interrupt() if it.get('base') else Boom())
         else:
           with gin.config_scope(scope_arg(it['arg'])):
             run(it['body'])
@@ -192,7 +215,7 @@ def run_impl(case):
     try:
       try:
         run(case['threads'][tid])
-      except Boom:
+      except (Boom, Interrupt):
         outcome = 'raised'
       except (ValueError, RuntimeError) as e:
         outcome = 'raised'
@@ -260,6 +283,8 @@ def naive(items, cur, binds, obs):
       obs.append([list(cur), x])
     elif it['k'] == 'raise':
       return False
+    elif it['k'] == 'catch':
+      naive(it['body'], cur, binds, obs)
     else:
       a = it['arg']
       if a['k'] == 'name' and a['v']:
@@ -304,6 +329,8 @@ def nontrivial(case, impl):
     for it in items:
       if it['k'] == 'raise' and d >= 2:
         return True
+      if it['k'] == 'catch' and deep_raise(it['body'], d):
+        return True
       if it['k'] == 'block':
         if it['arg']['k'] == 'invalid' and d >= 2:
           return True
@@ -336,7 +363,7 @@ def shrink(case):
       ths[tid] = prog[:i] + prog[i + 1:]
       yield dict(case, threads=ths)
     for i, it in enumerate(prog):
-      if it['k'] == 'block':
+      if it['k'] in ('block', 'catch'):
         ths = list(case['threads'])
         ths[tid] = prog[:i] + it['body'] + prog[i + 1:]
         yield dict(case, threads=ths)
